@@ -363,7 +363,7 @@ def gen_C11(rng, tier, seed):
     c = g.case(seed)
     c["ops"] = [o for o in c["ops"] if o["op"] != "reopen"]
     n = len(c["ops"])
-    c["config"]["backend"] = "real" if rng.random() < 0.08 else "sim"
+    c["config"]["backend"] = "real" if rng.random() < 0.2 else "sim"
     c["multi_restarts"] = [sorted(rng.sample(range(n + 1), min(n + 1, rng.randint(2, 5)))) for _ in range(rng.choice([0, 1, 2]))]
     clears = []
     for _ in range(rng.choice([0, 1, 1, 2])):
